@@ -334,7 +334,7 @@ def build():
     world.trusted_notes.append('sorted(d.items(), key=itemgetter(0)) iterates the items in the order sorted_keys(keys(d)), an uninterpreted duplicate-free list of the same keys (ascending order checked natively by rt.c16)')
     world.trusted_notes.append("out.update(d) with no key of d present in out (obligation) appends d's keys in d's order; keys_are_exactly (dict key set == key list) through quantified lemmas")
     world.trusted_notes.append("mashumaro's to_dict / from_dict are uninterpreted functions of (object or class, payload, dialect) that may raise")
-    return world, lib, reg, lemmas(lib, dict(nodup=nodup, SS=SS, DM=DM, OPV=OPV, dom_is=dom_is, present=present))
+    return world, lib, reg, lemmas(lib, dict(nodup=nodup, SS=SS, DM=DM, OPV=OPV, dom_is=dom_is, present=present, items_of=items_of, ITEM=ITEM, PV=PV, STR=STR))
 
 
 def lemmas(lib, d):
@@ -365,4 +365,16 @@ def lemmas(lib, d):
                       z3.Implies(z3.And(Dq(m0, ks0), Dq(m1, ks1)), Dq(merged, z3.Concat(ks0, ks1))))
         return [], goal
     L.append(Lemma("keys_are_exactly-rules", [("all", dom_all)], P))
+    items_of, ITEM, PV, STR_ = d["items_of"], d["ITEM"], d["PV"], d["STR"]
+    mI, xI, yI, rI = z3.Const("m_it", DM.z3()), z3.Const("x_it", z3.StringSort()), z3.Const("y_it", z3.StringSort()), z3.Const("r_it", SS.z3())
+    item = lambda k: ITEM.mk(STR_.wrap(k), PV.wrap(OPV.val(z3.Select(mI, k)))).term
+    ES = z3.Empty(SS.z3())
+    snoc_law = lambda r: items_of.t(mI, mk_snoc(r, yI)) == mk_snoc(items_of.t(mI, r), item(yI))
+
+    def is_step(bank):
+        from pyvc.core import mk_cons
+        whole = z3.Concat(mk_cons(xI, rI), z3.Unit(yI))
+        bank.add(whole, ("cons", xI, mk_snoc(rI, yI)))
+        return [snoc_law(rI)], items_of.t(mI, whole) == mk_snoc(items_of.t(mI, mk_cons(xI, rI)), item(yI))
+    L.append(Lemma("items-snoc", [("base", lambda bank: ([], snoc_law(ES))), ("step", is_step)], P))
     return L
